@@ -48,7 +48,7 @@ def scenario(draw) -> Dict[str, Any]:
             pre.append({'k': 'ptr', 'type': ti, 'n': n, 'ttl': draw(st.sampled_from([1, 1125, 4500])),
                         # age at S (the start of asking) relative to half TTL, in ms: negative = still fresh at S
                         'half_delta': draw(st.sampled_from([-30000, -14021, -14020, -14019, -5020, -1020, -21, -20, -19, 0, 1, 5000])),
-                        'second_batch': draw(st.sampled_from([0, 0, 3]))})
+                        'second_batch': draw(st.sampled_from([0, 0, 3, 3])), 'recase_second': draw(st.booleans())})
     for ii in range(2):
         which = draw(st.sampled_from(['none', 'srv', 'srv+txt', 'srv+txt', 'txt', 'all-but-a', 'srv+a']))
         if which != 'none':
@@ -167,7 +167,9 @@ class Exec:
                 rrs = [rp.wire_rr_of_ident(('PTR', TYPES[p['type']], f'peer{i}.{TYPES[p["type"]]}'), p['ttl']) for i in range(n1)]
                 plan.append((t_inj, rrs))
                 if p['second_batch']:
-                    rrs2 = [rp.wire_rr_of_ident(('PTR', TYPES[p['type']], f'peer{i}.{TYPES[p["type"]]}'), 4500)
+                    # (the second responder may spell the type's name in another letter case: still the same rrset)
+                    own2 = TYPES[p['type']].upper() if p.get('recase_second') else TYPES[p['type']]
+                    rrs2 = [rp.wire_rr_of_ident(('PTR', own2, f'peer{i}.{TYPES[p["type"]]}'), 4500)
                             for i in range(n1, p['n'])]
                     plan.append((S - 100000.0, rrs2))
             else:
